@@ -446,7 +446,45 @@ func scenarioCfg(cfg *scenCfg) int {
 // the cleanup of that growth refreshing the other counters).  Checked: every
 // call returns within the step budget, no panic, and after quiescence every
 // counter's persisted value is the sum of its increments with nothing pending.
+type multiCfg struct {
+	full   bool // first page of the existing file is full
+	npend  int  // counters with pending values, registered
+	nfresh int  // counters whose first Add runs in the managed phase
+	extra  int  // further Adds on random counters
+	pl     *plan
+}
+
 func multi() {
+	multiRun(multiCfg{full: true, npend: 2 + rnd.Intn(3), nfresh: rnd.Intn(3), extra: 1 + rnd.Intn(2)})
+}
+
+// multiSystematic: every schedule with at most k forced context switches of two
+// small configurations (an open racing with the first Add of a fresh counter).
+func multiSystematic(k int) {
+	for _, base := range []multiCfg{{full: false, npend: 1, nfresh: 1}, {full: true, npend: 1, nfresh: 1}} {
+		c := base
+		c.pl = &plan{}
+		maxSteps := multiRun(c)
+		var rec func(depth int, from int, pl plan)
+		rec = func(depth int, from int, pl plan) {
+			if depth == 0 {
+				return
+			}
+			for at := from; at <= maxSteps+2; at++ {
+				for to := 0; to < 2; to++ {
+					p2 := plan{append(append([]int{}, pl.at...), at), append(append([]int{}, pl.to...), to)}
+					c := base
+					c.pl = &p2
+					multiRun(c)
+					rec(depth-1, at+1, p2)
+				}
+			}
+		}
+		rec(k, 0, plan{})
+	}
+}
+
+func multiRun(cfg multiCfg) int {
 	dir, err := os.MkdirTemp(root, "m")
 	if err != nil {
 		panic(err)
@@ -458,11 +496,15 @@ func multi() {
 	vatomic.ResetClosed()
 	now := time.Date(2024, 1, 3, 10, 0, 0, 0, time.UTC)
 	counter.CounterTime = func() time.Time { return now }
-	out.Note("multi-open-of-full-file")
+	if cfg.pl != nil {
+		out.Note("multi-systematic")
+	} else {
+		out.Note("multi-open-of-full-file")
+	}
 	// an earlier process filled the first page of this week's file
 	f0 := counter.VerifNewFile()
 	f0.Rotate1()
-	for i := 0; ; i++ {
+	for i := 0; cfg.full; i++ {
 		room := 16384 - int(f0.CurLimit())
 		if room <= 32 {
 			break
@@ -477,7 +519,7 @@ func multi() {
 	f0.Close()
 	// this process: several counters incremented before the file is opened
 	f := counter.VerifNewFile()
-	nc := 2 + rnd.Intn(3)
+	nc := cfg.npend
 	cs := make([]*counter.Counter, nc)
 	want := make([]uint64, nc)
 	for i := range cs {
@@ -487,12 +529,30 @@ func multi() {
 		want[i] += uint64(k)
 		f.Register(cs[i])
 	}
+	// fresh counters: never incremented, not registered - their first Add (which
+	// registers them) runs concurrently with the open
+	for j := 0; j < cfg.nfresh; j++ {
+		cs = append(cs, f.NewCounter(fmt.Sprintf("m%d", len(cs))))
+		want = append(want, 0)
+	}
+	nc = len(cs)
 	type th struct {
 		fn func()
 	}
 	var ths []th
+	// the first Adds of the fresh counters come first in thread order: a single
+	// forced switch to the opener in the middle of one of them, after which the
+	// opener runs to its end and the Add resumes, is then a 1-switch schedule
+	for i := range cs {
+		if want[i] == 0 {
+			i := i
+			k := uint64(1 + rnd.Intn(3))
+			want[i] += k
+			ths = append(ths, th{func() { cs[i].Add(int64(k)) }})
+		}
+	}
 	ths = append(ths, th{func() { f.Rotate1() }})
-	for j := 0; j < 1+rnd.Intn(2); j++ {
+	for j := 0; j < cfg.extra; j++ {
 		i := rnd.Intn(nc)
 		k := uint64(1 + rnd.Intn(3))
 		want[i] += k
@@ -507,6 +567,7 @@ func multi() {
 	budget := 6000
 	status := "ok"
 	last := -1
+	nsteps := 0
 	for {
 		var cand []int
 		for i := range ths {
@@ -522,10 +583,27 @@ func multi() {
 			break
 		}
 		budget--
-		i := cand[rnd.Intn(len(cand))]
-		if last >= 0 && rnd.Chance(70) && (tids[last] < 0 || !s.Done(tids[last])) {
-			i = last
+		var i int
+		if cfg.pl != nil {
+			i = cand[0]
+			if last >= 0 && (tids[last] < 0 || !s.Done(tids[last])) {
+				i = last
+			}
+			for k, at := range cfg.pl.at {
+				if at == nsteps {
+					to := cfg.pl.to[k]
+					if to < len(ths) && (tids[to] < 0 || !s.Done(tids[to])) {
+						i = to
+					}
+				}
+			}
+		} else {
+			i = cand[rnd.Intn(len(cand))]
+			if last >= 0 && rnd.Chance(70) && (tids[last] < 0 || !s.Done(tids[last])) {
+				i = last
+			}
 		}
+		nsteps++
 		last = i
 		var info vsched.Info
 		if tids[i] < 0 {
@@ -556,6 +634,7 @@ func multi() {
 	f.Close()
 	vatomic.ResetClosed()
 	counter.VerifConcRelease()
+	return nsteps
 }
 
 // systematic: every schedule with at most k forced context switches, for a
@@ -616,8 +695,10 @@ func main() {
 	}
 	if os.Getenv("VERIF_TIER") == "thorough" {
 		systematic(2)
+		multiSystematic(2)
 	} else {
 		systematic(1)
+		multiSystematic(1)
 	}
 	out.Close()
 }
